@@ -5,6 +5,7 @@ single-bin entry points, the table of test windows)."""
 from __future__ import annotations
 
 import math
+import os
 from typing import Any, Dict, List, Optional, Tuple
 
 import numpy as np
@@ -39,6 +40,7 @@ ASSUMPTIONS = [
     "evaluated in extended precision",
     "the SIZE of rho (how low the Kaiser side lobes are) is not proved (C12's numeric residual); the oracle measures rho "
     "from the independently built window and uses the proved bound with that measured rho",
+    "run time only: the oracle sets the OpenBLAS thread count of its own process to 1 while it runs (restored afterwards); no predicate depends on it",
     "scale_x / scale_y / scale_fs are theorems about the attribute table given the raw statistics; that XX, XY scale with "
     "c^2, c (linearity of detrending and DFT) and that the plan does not depend on the data is checked by the oracle on the real code",
 ]
@@ -49,7 +51,21 @@ RULE = ("cases: (a) sinusoids A cos(2 pi f0 n/fs + phi), A in [1e-3,1e3], L in [
         "c in {2,0.5,-4} (bit-exact) and generic c on random two-channel and one-channel analyses; (c') the same laws over the whole range "
         "of factors: (cx, cy) with one or both of them in [1e-12,1e-4] / [1e4,1e12] (round decades and generic) and powers of two "
         "2^+-14..39 (bit-exact), through compute / compute_spectrum / lpsd and the single-bin entry points, incl. cs, ccoh, tf, Hyx, cf; "
-        "(d) fs -> a*fs relabelling. "
+        "(d) fs -> a*fs relabelling; "
+        "(e) option combinations on every run: one generator (gen_opt) walks through all 16 branches backend {numpy, numba/auto/omitted} x order "
+        "{-1,0,1,2} x {auto, cross} each round (6 rounds quick) and cycles entry points (analyzer.compute, analyzer.compute_single_bin with L= / fres=, "
+        "compute_spectrum, lpsd, compute_single_bin with L= / fres= / a resolution that is not fs/L), schedulers (lpsd, ltf, vectorized_ltf, new_ltf, a "
+        "fixed-length Welch callable, a callable listing L1, L2, L1), overlap requests (omitted, 'default', a float, exactly 0.0 also with N a multiple "
+        "of L, (1-olap)*L < 1), windows (kaiser(psll), hann, callables, numpy / scipy kaiser, the constructor default), layouts (1-D, strided view, "
+        "list, 2xN, Nx2, Fortran-ordered, list of lists), records with drift / offset / tone / red noise, both parities of L, K = 1 and K = 2; every "
+        "case gets: window sums and ENBW of every bin, raw statistics at bins spread over the plan against the definition (extended precision) with "
+        "the ps / density identities, the input array untouched, a second call (same analyzer / same array; single-bin after compute; L, L', L on one "
+        "analyzer) bit-identical, the other backend under identical options, one pair of scale factors, one fs relabelling; streams (a)-(d) also "
+        "rotate the backend; "
+        "(f) size thresholds: calibration with L = 70 001 and 1 100 003 (more and up to 2.1e6 when thorough / an obligation broke), one bin with "
+        "70 001 segments in each NumPy kernel (record whose level changes along the record), a plan with ~1000 bins / hundreds of distinct L, records "
+        "of 70 001 samples (1 100 003 when thorough), and c-1, c, c+1, c+17, 2c+3 around every integer constant c >= 512 mined from the CURRENT "
+        "core.py / analysis.py, taken as segment length, segment count and record length (rotated by the seed within the time share). "
         "distinct by (sub-claim, order, L or plan shape, window, scheduler, factor class); non-trivial = tone with K>=1 and rho>0, "
         "plans with >= 2 bins, non-zero records")
 
@@ -86,6 +102,42 @@ def win_transform(w: np.ndarray, theta) -> complex:
 def dirichlet_abs(L: int, theta) -> float:
     n = np.arange(L, dtype=LD)
     return float(np.hypot(np.cos(LD(theta) * n).sum(), np.sin(LD(theta) * n).sum()))
+
+
+def ref_bin_fast(x1: np.ndarray, x2: Optional[np.ndarray], D, L: int, w: np.ndarray, omega, order: int, block: int = 1 << 18):
+    """(XX, YY, XY, a, b): the estimator by its definition (_an.seg_dft / _an.ref_bin: detrend by the mean / by the projection on _an.poly_basis,
+    window, DFT at omega, mean over the segments of |X|^2, |Y|^2, X conj Y) in extended precision, all segments of a block at once, so that bins
+    with 10^4..10^5 segments and segments of 10^6 samples stay affordable.  a, b = max over the segments of sum |x w| (the scale of _an.bin_tol).
+    The blocks are of the oracle's own choosing (2^18 extended-precision numbers) and every segment is evaluated independently of its block."""
+    Dv = np.asarray([int(d) for d in D], dtype=np.int64)
+    K = len(Dv)
+    n = np.arange(L, dtype=LD)
+    cs, sn = np.cos(LD(omega) * n), np.sin(LD(omega) * n)
+    wl = np.asarray(w, dtype=np.float64).astype(LD)
+    Q = _an.poly_basis(L, order) if order >= 1 else None
+    ar = np.arange(L, dtype=np.int64)
+    step = max(1, block // max(L, 1))
+
+    def chan(x):
+        X = np.empty(K, dtype=complex)
+        raw = 0.0
+        for a0 in range(0, K, step):
+            seg = x[Dv[a0:a0 + step, None] + ar[None, :]]
+            raw = max(raw, float(np.abs(seg * w).sum(axis=1).max()))
+            v = seg.astype(LD)
+            if order == 0:
+                v = v - v.mean(axis=1, keepdims=True)
+            elif order >= 1:
+                v = v - (v @ Q) @ Q.T
+            v = v * wl
+            X[a0:a0 + step] = (v @ cs).astype(float) - 1j * (v @ sn).astype(float)
+        return X, raw
+    Xs, a = chan(x1)
+    XX = float(np.mean(np.abs(Xs) ** 2))
+    if x2 is None:
+        return XX, XX, complex(XX, 0.0), a + 1e-300, a + 1e-300
+    Ys, b = chan(x2)
+    return XX, float(np.mean(np.abs(Ys) ** 2)), complex((Xs * np.conj(Ys)).mean()), a + 1e-300, b + 1e-300
 
 
 def _bartlett_p(L):
@@ -209,8 +261,12 @@ def check_calib(P: C.Part, c: Dict[str, Any]) -> None:
     o = dict(win_opts(c["win"], psll), order=order)
     if c["olap"] is not None:
         o["olap"] = c["olap"]
+    if c.get("backend") is not None:
+        o["backend"] = c["backend"]
     P.cases += 1
     sig0 = {"subclaim": "calibration", "order": order, "via": c["via"]}
+    if c.get("backend") is not None:
+        sig0["backend"] = c["backend"]
     try:
         res = single_bin(data, fs, f0, L, c["via"], **o)
     except Exception as ex:  # noqa
@@ -235,16 +291,20 @@ def check_calib(P: C.Part, c: Dict[str, Any]) -> None:
             return
     omega = 2.0 * np.pi * float(f0) / float(fs)
     rho = abs(win_transform(w, 2 * w0)) / S1
-    rho0 = abs(win_transform(w, w0)) * dirichlet_abs(L, w0) / (L * S1)
+    rho0 = abs(win_transform(w, w0)) * dirichlet_abs(L, w0) / (L * S1) if order == 0 else 0.0      # enters the order-0 bound only
     K = len(D)
     if rho > 0 and A > 0:
         P.nontrivial.add(("calib", order, L, round(psll), min(K, 3), c["via"], c["cross"]))
     P.hit(f"calib.order{order}")
+    P.hit(f"calib.backend={c.get('backend')}.order{order}.{'cross' if c['cross'] else 'auto'}")
+    if L > 4096:
+        P.hit("calib.L>4096")
+        P.nontrivial.add(("calib-large-L", order, L, K, c.get("backend"), c["cross"]))
     P.hit("calib.K=1" if K == 1 else "calib.K>=2")
     P.hit("calib.L odd" if L % 2 else "calib.L even")
     iscsd = bool(c["cross"])
     for nm, z, amp in chans:
-        XXr, _, _, _, a, _ = _an.ref_bin(z, None, D, L, w, omega, order)
+        XXr, _, _, a, _ = ref_bin_fast(z, None, D, L, w, omega, order)
         tXX = _an.bin_tol(L, omega, a, a, order)[0]
         XXo = float(res.XX[0]) if nm == "x" else float(res.YY[0])
         tight("estimator |XX-ref|/tol", abs(XXo - XXr) / tXX)
@@ -280,7 +340,7 @@ def check_calib(P: C.Part, c: Dict[str, Any]) -> None:
                      dict(sig0, subclaim="calibration", channel=nm), c, observed=pso, expected=tgt, tol=bound)
     if iscsd and not full(P):
         # cross density = 2*XY/(fs*S2) (Gxy_def) and cross spectrum = density*ENBW, against the reference estimator on both tones
-        _, _, XYr, _, a, b = _an.ref_bin(x, chans[1][1], D, L, w, omega, order)
+        _, _, XYr, a, b = ref_bin_fast(x, chans[1][1], D, L, w, omega, order)
         tXY = _an.bin_tol(L, omega, a, b, order)[2]
         k = 2.0 / (fs * S2)
         for nm, ob, ex_, tl in (("XY", complex(res.XY[0]), XYr, tXY), ("Gxy", complex(res.Gxy[0]), k * XYr, k * tXY + 1e-12 * k * abs(XYr)),
@@ -347,7 +407,7 @@ def check_enbw(P: C.Part, c: Dict[str, Any]) -> None:
         runs = [("plan", res)]
         Ls = c["single_L"]
         try:
-            runs.append(("single", speckit.compute_single_bin(data, fs, float(fs * 0.21), L=Ls, **{k: v for k, v in o.items() if k in ("win", "psll", "order", "olap")})))
+            runs.append(("single", speckit.compute_single_bin(data, fs, float(fs * 0.21), L=Ls, **{k: v for k, v in o.items() if k in ("win", "psll", "order", "olap", "backend")})))
         except Exception as ex:  # noqa
             viol(P, f"compute_single_bin raised {ex!r} (L={Ls}, N={N}, win={nm})", dict(sig0, raises=True), c)
         for path, rs in runs:
@@ -377,6 +437,11 @@ def check_enbw(P: C.Part, c: Dict[str, Any]) -> None:
 
 # ================================================================ (3)/(4) scaling laws
 def _raw_scale(x: np.ndarray, w: np.ndarray, D, L: int) -> float:
+    if len(D) > 64:                       # many segments: the same maximum, gathered block-wise
+        Dv = np.asarray(D, dtype=np.int64)
+        ar = np.arange(L, dtype=np.int64)
+        step = max(1, (1 << 20) // max(L, 1))
+        return max(float(np.abs(x[Dv[a:a + step, None] + ar[None, :]] * w).sum(axis=1).max()) for a in range(0, len(Dv), step)) + 1e-300
     return max(float(np.abs(x[int(s):int(s) + L] * w).sum()) for s in D) + 1e-300
 
 
@@ -422,8 +487,9 @@ def _same_plan(a, b) -> bool:
     return all(np.array_equal(p, q) for p, q in zip(a.D, b.D))
 
 
-def _budgets(c, res, x1, x2, order):
-    """per-bin forward rounding budgets (tXX, tYY, tXY) of the raw statistics, from the raw windowed magnitudes"""
+def _budgets(c, res, x1, x2, order, rw=None):
+    """per-bin forward rounding budgets (tXX, tYY, tXY) of the raw statistics, from the raw windowed magnitudes
+    (rw: L -> reference window; default the window named by the case)"""
     f = np.asarray(res.f)
     n = len(f)
     tx, ty, txy = np.zeros(n), np.zeros(n), np.zeros(n)
@@ -431,7 +497,7 @@ def _budgets(c, res, x1, x2, order):
     for j in range(n):
         L = int(res.L[j])
         if L not in wc:
-            wc[L] = ref_window(c["win"], L, c["psll"])
+            wc[L] = ref_window(c["win"], L, c["psll"]) if rw is None else rw(L)
         a = _raw_scale(x1, wc[L], res.D[j], L)
         b = a if x2 is None else _raw_scale(x2, wc[L], res.D[j], L)
         om = 2 * np.pi * float(f[j]) / float(res.fs)
@@ -599,8 +665,32 @@ def _run_any(c: Dict[str, Any], x1, x2, fs: float):
     if not str(c["entry"]).startswith("single-"):
         return _run(c, x1, x2, fs)
     o = dict(win_opts(c["win"], c["psll"]), order=int(c["opts"]["order"]), olap=c["opts"]["olap"])
+    if c["opts"].get("backend") is not None:
+        o["backend"] = c["opts"]["backend"]
     data = x1 if x2 is None else (np.vstack([x1, x2]) if c["layout"] == "2xN" else np.ascontiguousarray(np.vstack([x1, x2]).T))
     return single_bin(data, fs, c["f0"], int(c["L"]), str(c["entry"])[7:], **o)
+
+
+def _pair_tests(base, r, cx: float, cy: float, T, tx, enbw, auto: bool, same_path: bool = True):
+    """the scaling law of the property for the factors (cx, cy) > 0: (attribute, observed, expected, absolute tolerance, bin mask).
+    same_path = False: r comes from ANOTHER code path (the other backend), so a channel with factor 1 gets its rounding budget too"""
+    ok = T["ok"]
+    c2x, c2y, cxy, ratio = cx * cx, cy * cy, cx * cy, cy / cx
+    zero = 0.0 * tx                          # a channel that was not touched goes through the identical computation: bit-for-bit
+    tXX = zero if (cx == 1.0 and same_path) else T["XX"] * c2x
+    tGxx = zero if (cx == 1.0 and same_path) else T["Gxx"] * c2x
+    if auto:
+        return [("XX", r.XX, base.XX * c2x, tXX, None), ("Gxx", r.Gxx, base.Gxx * c2x, tGxx, None),
+                ("psd", r.psd, base.psd * c2x, T["Gxx"] * c2x, None), ("ps", r.ps, base.ps * c2x, T["Gxx"] * c2x * enbw, None)]
+    tYY = zero if (cy == 1.0 and same_path) else T["YY"] * c2y
+    tGyy = zero if (cy == 1.0 and same_path) else T["Gyy"] * c2y
+    return [("XX", r.XX, base.XX * c2x, tXX, None), ("YY", r.YY, base.YY * c2y, tYY, None), ("XY", r.XY, base.XY * cxy, T["XY"] * cxy, None),
+            ("Gxx", r.Gxx, base.Gxx * c2x, tGxx, None), ("Gyy", r.Gyy, base.Gyy * c2y, tGyy, None),
+            ("Gxy", r.Gxy, base.Gxy * cxy, T["Gxy"] * cxy, None), ("csd", r.csd, base.csd * cxy, T["Gxy"] * cxy, None),
+            ("cs", r.cs, base.cs * cxy, T["Gxy"] * cxy * enbw + 1e-9 * np.abs(np.asarray(base.cs)) * cxy, None),
+            ("coh", r.coh, base.coh, T["coh"], ok), ("ccoh", r.ccoh, base.ccoh, T["ccoh"], ok),
+            ("Hxy", r.Hxy, base.Hxy * ratio, T["Hxy"] * ratio, ok), ("tf", r.tf, base.tf * ratio, T["Hxy"] * ratio, ok),
+            ("Hyx", r.Hyx, base.Hyx * ratio, T["Hxy"] * ratio, ok), ("cf", r.cf, base.cf * ratio, T["Hxy"] * ratio, ok)]
 
 
 def check_wscale(P: C.Part, c: Dict[str, Any]) -> None:
@@ -652,23 +742,7 @@ def check_wscale(P: C.Part, c: Dict[str, Any]) -> None:
         P.hit(f"wscale.{path}.{cls}")
         if float(np.max(base.XX)) > 0 and (x2 is None or sees):
             P.nontrivial.add(("wscale", c["entry"], cls, "exact" if exact else "generic", order, c["cross"], c["win"]))
-        c2x, c2y, cxy, ratio = cx * cx, cy * cy, cx * cy, cy / cx
-        zero = 0.0 * tx                          # a channel that was not touched goes through the identical computation: bit-for-bit
-        tXX = zero if cx == 1.0 else T["XX"] * c2x
-        tGxx = zero if cx == 1.0 else T["Gxx"] * c2x
-        if x2 is None:
-            tests = [("XX", r.XX, base.XX * c2x, tXX, None), ("Gxx", r.Gxx, base.Gxx * c2x, tGxx, None),
-                     ("psd", r.psd, base.psd * c2x, T["Gxx"] * c2x, None), ("ps", r.ps, base.ps * c2x, T["Gxx"] * c2x * enbw, None)]
-        else:
-            tYY = zero if cy == 1.0 else T["YY"] * c2y
-            tGyy = zero if cy == 1.0 else T["Gyy"] * c2y
-            tests = [("XX", r.XX, base.XX * c2x, tXX, None), ("YY", r.YY, base.YY * c2y, tYY, None), ("XY", r.XY, base.XY * cxy, T["XY"] * cxy, None),
-                     ("Gxx", r.Gxx, base.Gxx * c2x, tGxx, None), ("Gyy", r.Gyy, base.Gyy * c2y, tGyy, None),
-                     ("Gxy", r.Gxy, base.Gxy * cxy, T["Gxy"] * cxy, None), ("csd", r.csd, base.csd * cxy, T["Gxy"] * cxy, None),
-                     ("cs", r.cs, base.cs * cxy, T["Gxy"] * cxy * enbw + 1e-9 * np.abs(np.asarray(base.cs)) * cxy, None),
-                     ("coh", r.coh, base.coh, T["coh"], ok), ("ccoh", r.ccoh, base.ccoh, T["ccoh"], ok),
-                     ("Hxy", r.Hxy, base.Hxy * ratio, T["Hxy"] * ratio, ok), ("tf", r.tf, base.tf * ratio, T["Hxy"] * ratio, ok),
-                     ("Hyx", r.Hyx, base.Hyx * ratio, T["Hxy"] * ratio, ok), ("cf", r.cf, base.cf * ratio, T["Hxy"] * ratio, ok)]
+        tests = _pair_tests(base, r, cx, cy, T, tx, enbw, x2 is None)
         for nm, ob, ex_, tl, mask in tests:
             if ob is None or ex_ is None:
                 viol(P, f"{what}: attribute {nm} is None", dict(sig, field=nm), c, factor=[cx, cy])
@@ -676,6 +750,19 @@ def check_wscale(P: C.Part, c: Dict[str, Any]) -> None:
             _cmp_arrays(P, c, sig, nm, ob, ex_, tl, exact, what, mask=mask, factor=[cx, cy])
     P.sample({"op": "wide-scale", "N": c["N"], "fs": fs, "entry": c["entry"], "opts": c["opts"], "win": c["win"], "pairs": c["pairs"], "bins": nb,
               "cross": c["cross"], "sees-ratios": sees}, cap=2)
+
+
+def _fs_tests(base, r, a: float, T, auto: bool):
+    """relabelling fs -> a*fs: frequencies and ENBW times a, densities divided by a, raw statistics / ps / coh / Hxy unchanged"""
+    ok = T["ok"]
+    tests = [("f", r.f, base.f * a, 1e-12 * np.abs(base.f) * a, None), ("ENBW", r.ENBW, base.ENBW * a, 1e-12 * np.abs(base.ENBW) * a, None),
+             ("XX", r.XX, base.XX, T["XX"], None), ("Gxx", r.Gxx, base.Gxx / a, T["Gxx"] / a, None)]
+    if auto:
+        tests += [("psd", r.psd, base.psd / a, T["Gxx"] / a, None), ("ps", r.ps, base.ps, T["Gxx"] * np.asarray(base.ENBW), None)]
+    else:
+        tests += [("YY", r.YY, base.YY, T["YY"], None), ("XY", r.XY, base.XY, T["XY"], None), ("Gyy", r.Gyy, base.Gyy / a, T["Gyy"] / a, None),
+                  ("Gxy", r.Gxy, base.Gxy / a, T["Gxy"] / a, None), ("coh", r.coh, base.coh, T["coh"], ok), ("Hxy", r.Hxy, base.Hxy, T["Hxy"], ok)]
+    return tests
 
 
 def check_fs(P: C.Part, c: Dict[str, Any]) -> None:
@@ -720,13 +807,7 @@ def check_fs(P: C.Part, c: Dict[str, Any]) -> None:
         rel = 1e-9
         T = _derived_tols(base, m * tx, m * (ty if x2 is not None else tx), m * (txy if x2 is not None else tx), rel)
         ok = T["ok"]
-        tests = [("f", r.f, base.f * a, 1e-12 * np.abs(base.f) * a, None), ("ENBW", r.ENBW, base.ENBW * a, 1e-12 * np.abs(base.ENBW) * a, None),
-                 ("XX", r.XX, base.XX, T["XX"], None), ("Gxx", r.Gxx, base.Gxx / a, T["Gxx"] / a, None)]
-        if x2 is None:
-            tests += [("psd", r.psd, base.psd / a, T["Gxx"] / a, None), ("ps", r.ps, base.ps, T["Gxx"] * np.asarray(base.ENBW), None)]
-        else:
-            tests += [("YY", r.YY, base.YY, T["YY"], None), ("XY", r.XY, base.XY, T["XY"], None), ("Gyy", r.Gyy, base.Gyy / a, T["Gyy"] / a, None),
-                      ("Gxy", r.Gxy, base.Gxy / a, T["Gxy"] / a, None), ("coh", r.coh, base.coh, T["coh"], ok), ("Hxy", r.Hxy, base.Hxy, T["Hxy"], ok)]
+        tests = _fs_tests(base, r, a, T, x2 is None)
         for nm, ob, ex_, tl, mask in tests:
             _cmp_arrays(P, c, sig, nm, ob, ex_, tl, exact, what, mask=mask, factor=a)
     P.sample({"op": "relabel-fs", "N": c["N"], "fs": fs, "opts": c["opts"], "factors": c["factors"], "bins": nb}, cap=1)
@@ -738,6 +819,8 @@ def check_fs_single(P: C.Part, c: Dict[str, Any]) -> None:
     L, N, fs, f0 = c["L"], c["N"], c["fs"], c["f0"]
     x = tone(N, c["A"], omega_of(f0, fs), c["phi"])
     o = dict(win_opts(c["win"], c["psll"]), order=c["order"])
+    if c.get("backend") is not None:
+        o["backend"] = c["backend"]
     P.cases += 1
     try:
         b = single_bin(x, fs, f0, L, "func", **o)
@@ -761,6 +844,669 @@ def check_fs_single(P: C.Part, c: Dict[str, Any]) -> None:
                                 ("psd", float(r.psd[0]), float(b.psd[0]) / a, (2 * t / (fs * float(b.S2[0])) + 1e-9 * float(b.psd[0])) / a)):
             _cmp_arrays(P, c, sig, nm, np.array([ob]), np.array([ex_]), np.array([tl]), a != 3.3, f"single-bin relabelling fs -> {a}*fs (L={L})", factor=a)
         P.nontrivial.add(("fs-single", a, L, c["order"]))
+
+
+# ================================================================ (5) option combinations and entry points, on every run
+# The statements of this property are quantified over "configurations": a wrong factor, a dropped term or a stale buffer in ONE branch of
+# the kernel dispatch (backend x detrending order x auto/cross), in ONE entry point, for ONE scheduler / overlap request / window kind /
+# input layout, or only on the second call, violates it for that configuration only.  Every analysis-level case of this stream draws its
+# options from ONE generator that walks through all (backend, order, auto/cross) branches on every run and cycles the other axes over the
+# run and across seeds; each case gets ALL predicates of this module: window sums and ENBW of every bin, the raw statistics against the
+# estimator's definition (extended precision) with the derived ps / density identities, the scaling law for one pair of factors, the
+# fs relabelling, the other backend under otherwise identical options, and a second call (same analyzer / same input array).
+ENTRIES = ["analyzer", "single-method", "compute_spectrum", "single-method-fres", "lpsd", "single-func", "single-fres"]
+PLAN_ENTRIES = ("analyzer", "compute_spectrum", "lpsd")
+SCHED6 = ["lpsd", "welch", "ltf", "revisit", "vectorized_ltf", "new_ltf"]
+OLAP_FORMS = ["omit", "float", "zero", "default", "high"]
+WIN7 = ["kaiser", "hann", "ramp", "default", "np_kaiser", "blackman", "sp_kaiser"]
+RECS = ["drift", "offset", "tone", "red", "noise"]
+LAY_X = ["2xN", "Nx2", "list", "2xN-F"]
+LAY_A = ["1d", "list", "strided", "1d"]
+RAW_FIELDS = ("f", "L", "K", "XX", "YY", "XY", "S12", "S2", "M2", "ENBW")
+
+
+def make_sched(spec: str):
+    """user schedulers (the analyzer accepts callables).  'welch:L': ONE fixed segment length, hop max(1, floor((1-olap) L)), bins at fractional
+    positions; 'revisit:L1:L2': bins with segment lengths L1, L2 and L1 AGAIN (a length listed again after a different one: a window / basis /
+    buffer kept from the previous length shows).  Built-in names are returned unchanged."""
+    parts = str(spec).split(":")
+    if parts[0] not in ("welch", "revisit"):
+        return spec
+    Ls = [int(parts[1])] if parts[0] == "welch" else [int(parts[1]), int(parts[2]), int(parts[1])]
+
+    def plan(N, fs, olap, bmin=1.0, Lmin=1, Jdes=12, Kdes=1, **kw):
+        per = int(min(8, max(2, int(Jdes) // len(Ls))))
+        f, Lv, D = [], [], []
+        for g, L in enumerate(Ls):
+            L = int(min(L, N))
+            hop = max(1, int(math.floor((1.0 - float(olap)) * L)))
+            d = np.arange(0, int(N) - L + 1, hop, dtype=np.int64)
+            lo = min(max(float(bmin), 1.0) + 0.37 + 0.21 * g, L / 4)
+            for m_ in np.linspace(lo, max(lo, L / 2 - 1.2), per):
+                f.append(float(fs) * float(m_) / L)
+                Lv.append(L)
+                D.append(d.copy())
+        Lv = np.array(Lv, dtype=np.int64)
+        f = np.array(f, dtype=float)
+        r = float(fs) / Lv
+        K = np.array([len(d) for d in D], dtype=np.int64)
+        return {"f": f, "r": r, "b": f / r, "L": Lv, "K": K, "navg": K.copy(), "D": D, "O": np.full(len(f), float(olap))}
+    plan.__name__ = "user_plan_" + "_".join(parts)
+    return plan
+
+
+def gen_opt(rng: np.random.Generator, i: int, s: int, thorough: bool) -> Dict[str, Any]:
+    """case i of a run with seed s: (backend, order, auto/cross) = branch i mod 16 of the dispatch; entry points with period 7, schedulers 6,
+    overlap request forms 5, window kinds 7, layouts 4, record kinds 5 (offsets chosen so that the combinations differ between rounds and seeds)"""
+    k = i // 16
+    backend = ["numpy", ["numba", "auto", None][(k + s) % 3]][i % 2]
+    order = [-1, 0, 1, 2][(i // 2) % 4]
+    cross = bool((i // 8) % 2)
+    entry = ENTRIES[(i + 3 * s) % 7]
+    single = entry not in PLAN_ENTRIES
+    N = int(rng.integers(200, 4000 if thorough else 1600))
+    fs = float(rng.choice([1.0, 2.0, 1000.0, float(10 ** rng.uniform(-2, 4))]))
+    wn = WIN7[(i + i // 7 + s) % 7]
+    psll = float(rng.choice([60.0, 200.0, float(rng.uniform(60, 200)), float(rng.uniform(40, 200))])) if win_table().get(wn, (0, 0, False))[2] else None
+    olf = OLAP_FORMS[(i + 2 * s) % 5]
+    c: Dict[str, Any] = {"kind": "opt", "i": i, "dseed": int(rng.integers(0, 2 ** 31)), "fs": fs, "cross": cross, "order": order, "backend": backend,
+                         "entry": entry, "win": wn, "psll": psll, "layout": (LAY_X if cross else LAY_A)[(i + k + s) % 4],
+                         "rec": [RECS[(i + s) % 5], RECS[(i // 5 + 2 + s) % 5]]}
+    q = (i // 7) * 3 + {0: 0, 2: 1, 4: 2}.get((i + 3 * s) % 7, 0)
+    sched = SCHED6[(q + s) % 6]
+    if single:
+        L = int(round(math.exp(rng.uniform(math.log(8), math.log(min(N, 700))))))
+        L = max(2, min(N, 2 * (L // 2) + (i + k) % 2))                 # both parities, alternating
+        km = (i + k) % 3
+        if km == 0:
+            N = L                                                      # one segment
+        elif km == 1:
+            N = L + max(1, L // 3)                                     # two segments for overlaps around 0.5, one for small overlaps
+        elif olf == "zero" and rng.random() < 0.6:
+            N = L * int(rng.integers(2, 6))                            # record a multiple of the segment length, no overlap
+        elif olf == "high":
+            N = min(N, L + 400)
+        if entry in ("single-fres", "single-method-fres") and not fres_gives(fs, L):
+            entry = c["entry"] = "single-func" if entry == "single-fres" else "single-method"
+        c["frac"] = bool(entry in ("single-fres", "single-method-fres") and (i // 7) % 2 and int(round(float(fs) / (float(fs) / (L + 0.3)))) == L)
+        c.update(L=L, f0=float(fs * rng.uniform(0.03, 0.47)))
+    else:
+        c.update(Jdes=int(rng.integers(4, 24)), Kdes=int(rng.choice([1, 2, 5, 20])), bmin=float(rng.choice([1.0, 1.0, 2.0, 3.5])),
+                 Lmin=int(rng.choice([1, 1, 8])), f0=float(fs * rng.uniform(0.03, 0.47)))
+        if sched == "welch":
+            if olf == "high":
+                N = min(N, 500)
+            L = int(rng.integers(max(8, N // 8), max(10, N // 2)))
+            L = 2 * (L // 2) + (i + k) % 2
+            if olf == "zero" and rng.random() < 0.6:
+                N = L * int(rng.integers(2, 6))
+            sched, c["Lmin"] = f"welch:{L}", 1
+        elif sched == "revisit":
+            L1 = int(rng.integers(16, max(18, N // 5)))
+            L2 = int(rng.integers(max(20, N // 4), max(22, N // 2)))
+            if rng.random() < 0.3 and N >= 1024:
+                L1, L2 = 256, 1024
+            sched, c["Lmin"] = f"revisit:{L1}:{L2}", 1
+        c["sched"] = sched
+    if olf == "high" and not (single or str(c.get("sched", "")).startswith("welch")):
+        olf = "float"
+    if olf == "high":                                                  # (1 - olap) * L < 1
+        Lh = c["L"] if single else int(c["sched"].split(":")[1])
+        olap: Any = 1.0 - 0.5 / Lh
+    else:
+        olap = {"omit": "omit", "default": "default", "zero": 0.0}.get(olf, float(rng.choice([0.3, 0.5, 0.75, float(rng.uniform(0.05, 0.9))])))
+    pk = (i + k) % 4
+    if pk == 0:
+        pair = [float(10 ** rng.uniform(-9, -3)), 1.0] if rng.random() < 0.5 else [1.0, float(10 ** rng.uniform(3, 9))]
+    elif pk == 1:
+        pair = [float(2.0 ** int(rng.integers(-20, 21))), float(2.0 ** int(rng.integers(-20, 21)))]
+    elif pk == 2:
+        pair = [float(rng.choice([3.7, 0.013, 41.0])), float(10 ** rng.uniform(-3, 3))]
+    else:
+        pair = [float(2.0 ** int(rng.integers(1, 30))), 1.0] if rng.random() < 0.5 else [1.0, float(2.0 ** -int(rng.integers(1, 30)))]
+    c.update(N=int(N), olap=olap, olap_form=olf, pair=pair, fsfac=[2.0, 3.3, 0.5, float(10 ** rng.uniform(-2, 2))][(i // 4 + k) % 4],
+             steps=["ref", "repeat", "other", "scale", "fs"])
+    return c
+
+
+def _opt_single(c) -> bool:
+    return c["entry"] not in PLAN_ENTRIES
+
+
+def _opt_data(c: Dict[str, Any]) -> Tuple[np.ndarray, Optional[np.ndarray]]:
+    r = np.random.default_rng(c["dseed"])
+    N = int(c["N"])
+
+    def rec(kind: str) -> np.ndarray:
+        if kind == "ramptone":      # a tone at the analysed frequency whose level rises along the record, on an offset, plus noise:
+            t = np.arange(N)        # every segment contributes differently, so a segment (or a block of segments) lost, repeated or misplaced shows
+            return (0.2 + 1.8 * t / max(N - 1, 1)) * np.cos(2 * np.pi * (float(c["f0"]) / float(c["fs"])) * t + 0.7) + 0.3 * r.standard_normal(N) + 2.5
+        return _an.record(r, N, kind)
+    x1 = rec(c["rec"][0])
+    if not c["cross"]:
+        return x1, None
+    return x1, 0.5 * np.roll(x1, 3) + rec(c["rec"][1])
+
+
+def _opt_input(c: Dict[str, Any], x1: np.ndarray, x2: Optional[np.ndarray]):
+    """the object handed to the library (never the oracle's own arrays: they are compared with it afterwards)"""
+    lay = c["layout"]
+    if x2 is None:
+        if lay == "list":
+            return x1.tolist()
+        if lay == "strided":
+            big = np.zeros(2 * len(x1))
+            big[::2] = x1
+            return big[::2]
+        return x1.copy()
+    d = np.vstack([x1, x2])
+    if lay == "Nx2":
+        return np.ascontiguousarray(d.T)
+    if lay == "2xN-F":
+        return np.asfortranarray(d)
+    if lay == "list":
+        return [x1.tolist(), x2.tolist()]
+    return d
+
+
+def _opt_untouched(c, data, x1, x2) -> bool:
+    a = np.asarray(data, dtype=float)
+    if x2 is None:
+        return a.shape == x1.shape and np.array_equal(a, x1)
+    if a.shape[0] != 2:
+        a = a.T
+    return a.shape == (2, len(x1)) and np.array_equal(a[0], x1) and np.array_equal(a[1], x2)
+
+
+def _opt_refwin(c: Dict[str, Any]):
+    cache: Dict[int, np.ndarray] = {}
+
+    def rw(L: int) -> np.ndarray:
+        if L not in cache:
+            cache[L] = _an.window("kaiser", L, 200.0) if c["win"] == "default" else ref_window(c["win"], L, c["psll"])
+        return cache[L]
+    return rw
+
+
+def _opt_kwargs(c: Dict[str, Any], backend="keep") -> Dict[str, Any]:
+    o: Dict[str, Any] = {"order": int(c["order"])}
+    be = c.get("backend") if backend == "keep" else backend
+    if be is not None:
+        o["backend"] = be
+    if c["win"] != "default":                       # "default": neither win nor psll is passed (np.kaiser, psll 200)
+        o.update(win_opts(c["win"], c["psll"]))
+    if c["olap"] != "omit":
+        o["olap"] = c["olap"]
+    if not _opt_single(c):
+        o.update(Jdes=int(c["Jdes"]), Kdes=int(c["Kdes"]), bmin=float(c["bmin"]), Lmin=int(c["Lmin"]), scheduler=make_sched(c["sched"]))
+    return o
+
+
+def _opt_run(c: Dict[str, Any], data, fs: float, a: float = 1.0, backend="keep"):
+    """(result, again, analyzer or None): the analysis through the case's entry point with the sampling rate a*fs; again() repeats it — on the SAME analyzer where
+    the entry point has one (for single-method after an analysis with another segment length in between), else by the same call on the same input"""
+    import speckit
+    o = _opt_kwargs(c, backend)
+    e = c["entry"]
+    fsu = float(a) * float(fs)
+    f0 = float(a) * float(c["f0"])
+    if e == "analyzer":
+        an = speckit.SpectrumAnalyzer(data, fsu, **o)
+        return an.compute(), an.compute, an
+    if e in ("compute_spectrum", "lpsd"):
+        fn = getattr(speckit, e)
+        return fn(data, fsu, **o), (lambda: fn(data, fsu, **o)), None
+    L = int(c["L"])
+    if e == "single-func":
+        return speckit.compute_single_bin(data, fsu, f0, L=L, **o), (lambda: speckit.compute_single_bin(data, fsu, f0, L=L, **o)), None
+    fres = fsu / (L + 0.3) if c.get("frac") else fsu / L       # "frac": a requested resolution that is not fs/L; the analysis still uses L samples
+    if e == "single-fres":
+        return speckit.compute_single_bin(data, fsu, f0, fres=fres, **o), (lambda: speckit.compute_single_bin(data, fsu, f0, fres=fres, **o)), None
+    an = speckit.SpectrumAnalyzer(data, fsu, **o)
+    if e == "single-method":
+        def again():
+            an.compute_single_bin(0.9 * f0, L=max(1, L // 2 + 1))
+            return an.compute_single_bin(f0, L=L)
+        return an.compute_single_bin(f0, L=L), again, an
+    return an.compute_single_bin(f0, fres=fres), (lambda: an.compute_single_bin(f0, fres=fres)), an
+
+
+def _spread_bins(res, cap: int = 8) -> List[int]:
+    """bins spread over the WHOLE result: both ends, interior points, and bins whose segment length was listed before a different one"""
+    nb = len(res.f)
+    if nb <= cap:
+        return list(range(nb))
+    Ls = [int(v) for v in res.L]
+    pick = [0, nb - 1]
+    seen: Dict[int, int] = {}
+    for j, l in enumerate(Ls):
+        if l in seen and Ls[j - 1] != l and len(pick) < 4:
+            pick.append(j)
+        seen[l] = j
+    pick += [nb // 2, nb - 2, 1, nb // 3, (2 * nb) // 3, nb // 5, (4 * nb) // 5]
+    out: List[int] = []
+    for j in pick:
+        if 0 <= j < nb and j not in out:
+            out.append(j)
+    return sorted(out[:cap])
+
+
+def _opt_sig(c: Dict[str, Any], sub: str, **kw) -> Dict[str, Any]:
+    return dict({"subclaim": sub, "order": int(c["order"]), "backend": c.get("backend"), "path": "single" if _opt_single(c) else "plan",
+                 "cross": bool(c["cross"])}, **kw)
+
+
+def _opt_brief(c: Dict[str, Any]) -> str:
+    return (f"{c['entry']}" + (f"(L={c['L']}, f={c['f0']!r})" if _opt_single(c) else f"({c['sched']}, Jdes={c['Jdes']}, Kdes={c['Kdes']})")
+            + f", backend={c.get('backend')!r}, order {c['order']}, {'two channels' if c['cross'] else 'one channel'} ({c['layout']}), N={c['N']}, fs={c['fs']!r}, "
+              f"win={c['win']}" + (f"(psll={c['psll']})" if c["psll"] is not None else "") + f", olap={c['olap']!r}")
+
+
+def _window_checks(P: C.Part, c, res, rw, fs: float, sums: Dict[int, Tuple[float, float, float]]) -> bool:
+    """S12 = (sum w)^2, S2 = sum w^2, ENBW = fs*S2/S1^2 of EVERY bin against the independently built window (1e-10, as in the calibration stream)"""
+    LL = np.asarray(res.L)
+    S12o, S2o, Eo = np.asarray(res.S12, dtype=float), np.asarray(res.S2, dtype=float), np.asarray(res.ENBW, dtype=float)
+    for j in range(len(LL)):
+        L = int(LL[j])
+        if L not in sums:
+            wl = rw(L).astype(LD)
+            sums[L] = (float(wl.sum()), float((wl * wl).sum()), float(np.abs(wl).sum()))
+        S1, S2, Sa = sums[L]
+        if not abs(S1) > 1e-9 * Sa:
+            P.hit("opt.zero-sum-window")
+            continue
+        for nm, ob, ex in (("S12", float(S12o[j]), S1 * S1), ("S2", float(S2o[j]), S2), ("ENBW", float(Eo[j]), fs * S2 / (S1 * S1))):
+            if nm == "ENBW":
+                tight("ENBW rel.dev/1e-10", abs(ob - ex) / (1e-10 * abs(ex)))
+            if not abs(ob - ex) <= 1e-10 * abs(ex):
+                viol(P, f"{nm}[{j}] = {ob!r} but the {c['win']} window (psll={c['psll']}) of length L={L} gives {ex!r}"
+                        + (" = fs*sum(w^2)/(sum w)^2" if nm == "ENBW" else "") + f"; bin {j} of {len(LL)}; {_opt_brief(c)}",
+                     _opt_sig(c, "enbw" if nm == "ENBW" else "window", field=nm), c, observed=ob, expected=ex, bin=j)
+                return False
+    return True
+
+
+def _ref_checks(P: C.Part, c, res, x1, x2, rw, fs: float, bins: List[int], sums) -> bool:
+    """the raw statistics of the chosen bins against the estimator's definition on the result's own plan (extended precision), and the
+    identities that turn them into calibrated quantities: ps = psd*ENBW = 2*XX/S1^2, Gxy = csd = 2*XY/(fs*S2), cs = Gxy*ENBW"""
+    order = int(c["order"])
+    good = True
+    spent, cap = 0, int(c.get("ref_cap", 1_600_000)) // (2 if x2 is not None else 1)
+    for t, j in enumerate(bins):
+        if full(P):
+            return good
+        L = int(res.L[j])
+        D = [int(d) for d in res.D[j]]
+        if t >= 1 and j != bins[-1] and spent + L * len(D) > cap:       # extended-precision work of this case is capped (ends always evaluated)
+            P.hit("opt.ref-bin-skipped(cost)")
+            continue
+        spent += L * len(D)
+        w = rw(L)
+        S1, S2, Sa = sums[L]
+        omega = 2.0 * np.pi * float(res.f[j]) / float(fs)
+        XXr, YYr, XYr, a, b = ref_bin_fast(x1, x2, D, L, w, omega, order)
+        tXX, tYY, tXY, _ = _an.bin_tol(L, omega, a, b, order)
+        sig = _opt_sig(c, "estimator")
+        where = f"bin {j} of {len(res.f)} (L={L}, K={len(D)}, f={float(res.f[j])!r}); {_opt_brief(c)}"
+        rows = [("XX", float(res.XX[j]), XXr, tXX)]
+        if x2 is not None:
+            rows += [("YY", float(res.YY[j]), YYr, tYY), ("XY", complex(res.XY[j]), XYr, tXY)]
+        bad = False
+        for nm, ob, ex, tl in rows:
+            if tl > 0:
+                tight("estimator |XX-ref|/tol" if nm == "XX" else f"estimator |{nm}-ref|/tol", abs(ob - ex) / tl)
+            if not abs(ob - ex) <= tl:
+                viol(P, f"{nm}[{j}] = {ob!r} but the windowed-DFT definition on the result's own segments gives {ex!r} (tol {tl:.3g}); {where}",
+                     dict(sig, field=nm), c, observed=ob, expected=ex, tol=tl, bin=j)
+                bad = True
+                break
+        if bad:
+            good = False
+            continue
+        if not abs(S1) > 1e-9 * Sa:
+            continue
+        S12 = S1 * S1
+        en = float(res.ENBW[j])
+        if x2 is None:
+            pso, pp = float(res.ps[j]), float(res.psd[j]) * en
+            if not abs(pso - pp) <= 4 * U * abs(pp):
+                viol(P, f"ps[{j}] = {pso!r} but psd*ENBW = {pp!r}; {where}", _opt_sig(c, "ps=psd*ENBW"), c, observed=pso, expected=pp, bin=j)
+                good = False
+            chk = [("x", pso, XXr, tXX)]
+        else:
+            chk = [("x", float(res.Gxx[j]) * en, XXr, tXX), ("y", float(res.Gyy[j]) * en, YYr, tYY)]
+        for nm, pso, Xr, tX in chk:
+            psr, tps = 2 * Xr / S12, 2 * tX / S12
+            if not abs(pso - psr) <= tps + 1e-12 * psr:
+                viol(P, f"power spectrum (density*ENBW) of channel {nm} = {pso!r} but 2*XX/S1^2 of the reference estimator = {psr!r}; {where}",
+                     _opt_sig(c, "ps-vs-ref", channel=nm), c, observed=pso, expected=psr, tol=tps, bin=j)
+                good = False
+        if x2 is not None:
+            kq = 2.0 / (fs * S2)
+            for nm, ob, ex_, tl in (("Gxy", complex(res.Gxy[j]), kq * XYr, kq * tXY + 1e-12 * kq * abs(XYr)),
+                                    ("csd", complex(res.csd[j]), kq * XYr, kq * tXY + 1e-12 * kq * abs(XYr)),
+                                    ("cs", complex(res.cs[j]), 2 * XYr / S12, 2 * tXY / S12 + 1e-12 * abs(XYr) / S12)):
+                if not abs(ob - ex_) <= tl:
+                    viol(P, f"{nm}[{j}] = {ob!r} but the definition (2*XY/(fs*S2), times ENBW for cs) on the reference estimator gives {ex_!r} "
+                            f"(tol {tl:.3g}); {where}", _opt_sig(c, "cross-density", field=nm), c, observed=ob, expected=ex_, tol=tl, bin=j)
+                    good = False
+                    break
+    return good
+
+
+def _same_raw(P: C.Part, c, a, b, what: str, sub: str) -> None:
+    """two runs of the SAME computation (same code path, same input): bit-identical; a last-digit difference is counted unstable"""
+    for nm in RAW_FIELDS + ("D",):
+        if nm == "D":
+            same = len(a.D) == len(b.D) and all(np.array_equal(p, q) for p, q in zip(a.D, b.D))
+            near = False
+        else:
+            u, v = np.asarray(getattr(a, nm)), np.asarray(getattr(b, nm))
+            same = u.shape == v.shape and np.array_equal(u, v)
+            near = (not same) and u.shape == v.shape and bool(np.all(np.abs(u - v) <= 1e-12 * np.maximum(np.abs(u), np.abs(v))))
+        if same:
+            continue
+        if near:
+            P.unstable += 1
+            P.hit("opt.repeat-last-digit")
+            continue
+        if nm == "D":
+            txt = "segment starts differ"
+        else:
+            j = int(np.argmax(np.abs(u - v))) if u.shape == v.shape and u.size else 0
+            txt = f"{nm}[{j}] = {u[j].item()!r} then {v[j].item()!r}" if u.shape == v.shape and u.size else f"{nm} has shapes {u.shape} / {v.shape}"
+        viol(P, f"{what}: {txt}; {_opt_brief(c)}", _opt_sig(c, sub, field=nm), c)
+        return
+
+
+def check_opt(P: C.Part, c: Dict[str, Any]) -> None:
+    remember(c)
+    x1, x2 = _opt_data(c)
+    fs = float(c["fs"])
+    order = int(c["order"])
+    single = _opt_single(c)
+    steps = c.get("steps", ["ref", "repeat", "other", "scale", "fs"])
+    rw = _opt_refwin(c)
+    data = _opt_input(c, x1, x2)
+    other_be = "numba" if c.get("backend") == "numpy" else "numpy"
+    P.cases += 1
+    if not single and len(x1) >= 4000:
+        # long records: a scheduler may answer a small Jdes with tens of thousands of bins (new_ltf: 25 153 bins for N = 70 001, Jdes = 12, Kdes = 2,
+        # minutes of work): the work of the plan (sum of K*L) is looked at first and such a case is left out
+        try:
+            import speckit
+            pl = speckit.SpectrumAnalyzer(x1 if x2 is None else np.vstack([x1, x2]), fs, **_opt_kwargs(c)).plan()
+            work = float(np.sum(np.asarray(pl["K"], dtype=float) * np.asarray(pl["L"], dtype=float)))
+        except Exception:  # noqa  (handled below, where the analysis itself is run)
+            work = 0.0
+        if work > float(c.get("work_cap", 6e7)):
+            P.hit("opt.plan-too-much-work(skipped)")
+            P.notes.append(f"left out (sum K*L = {work:.3g}): {_opt_brief(c)}")
+            return
+    try:
+        base, again, an = _opt_run(c, data, fs)
+    except Exception as ex:  # noqa
+        if single:
+            viol(P, f"single-bin analysis raised {ex!r}; {_opt_brief(c)}", _opt_sig(c, "calibration", raises=True), c)
+            return
+        # a plan the scheduler / validation rejects is C02's business — unless the other backend accepts the very same options
+        try:
+            _opt_run(c, _opt_input(c, x1, x2), fs, backend=other_be)
+        except Exception:  # noqa
+            P.hit("opt.plan-raised")
+            return
+        viol(P, f"analysis raised {ex!r} but runs with backend={other_be!r} under otherwise identical options; {_opt_brief(c)}",
+             _opt_sig(c, "backend-agreement", raises=True), c)
+        return
+    nb = len(base.f)
+    if c.get("expect_K") is not None:
+        P.hit("size.K as planned" if int(base.K[0]) == int(c["expect_K"]) else "size.K differs from the planned one")
+    nL = len(set(int(v) for v in base.L))
+    if int(np.max(base.K)) > 8000 or len(x1) > 8000 or nb > 500 or nL > 256:
+        for key, on in (("size.K>8000", int(np.max(base.K)) > 8000), ("size.N>8000", len(x1) > 8000 and not single), ("size.bins>500", nb > 500),
+                        ("size.distinct-L>256", nL > 256)):
+            if on:
+                P.hit(key)
+        P.nontrivial.add(("size", int(np.max(base.K)), int(np.max(base.L)), nb, nL, len(x1), c.get("backend"), order, bool(c["cross"])))
+    tag = f"{c.get('backend')}.order{order}.{'cross' if c['cross'] else 'auto'}"
+    P.hit(f"opt.branch.{tag}")
+    P.hit(f"opt.entry.{c['entry']}")
+    P.hit(f"opt.olap.{c.get('olap_form')}")
+    P.hit(f"opt.win.{c['win']}")
+    P.hit(f"opt.layout.{c['layout']}")
+    if not single:
+        P.hit(f"opt.sched.{str(c['sched']).split(':')[0]}")
+    for j in range(min(nb, 64)):
+        P.hit("opt.K=1" if int(base.K[j]) == 1 else ("opt.K=2" if int(base.K[j]) == 2 else "opt.K>=3"))
+        P.hit("opt.L odd" if int(base.L[j]) % 2 else "opt.L even")
+    if nb >= 1 and float(np.max(base.XX)) > 0:
+        P.nontrivial.add(("opt", tag, c["entry"], None if single else str(c["sched"]).split(":")[0], c.get("olap_form"), c["win"], c["layout"],
+                          min(nb, 3), int(base.L[0]) % 2, min(int(np.max(base.K)), 3)))
+    if single and (int(base.L[0]) != int(c["L"]) or nb != 1 or float(base.f[0]) != float(c["f0"])):
+        viol(P, f"single-bin result reports L={int(base.L[0])}, f={float(base.f[0])!r} for requested L={c['L']}, f={c['f0']!r}; {_opt_brief(c)}",
+             _opt_sig(c, "calibration", field="L/f"), c)
+        return
+    N = len(x1)
+    for j in range(nb):
+        Dj = np.asarray(base.D[j])
+        if Dj.size == 0 or int(Dj.min()) < 0 or int(Dj.max()) + int(base.L[j]) > N or int(base.K[j]) != Dj.size:
+            viol(P, f"segment starts of bin {j} out of range or K != number of starts (L={int(base.L[j])}, N={N}); {_opt_brief(c)}",
+                 _opt_sig(c, "calibration", field="D"), c, bin=j)
+            return
+    sums: Dict[int, Tuple[float, float, float]] = {}
+    if not _window_checks(P, c, base, rw, fs, sums):
+        return
+    if "ref" in steps and not _ref_checks(P, c, base, x1, x2, rw, fs, _spread_bins(base, int(c.get("nref", 8))), sums):
+        return
+    if not _opt_untouched(c, data, x1, x2):
+        viol(P, f"the analysis changed the caller's input array; {_opt_brief(c)}", _opt_sig(c, "input-untouched"), c)
+        return
+    # ---- a second call: same analyzer / same input array
+    if "repeat" in steps and not full(P):
+        P.cases += 1
+        try:
+            rep = again()
+        except Exception as ex:  # noqa
+            viol(P, f"the second call raised {ex!r} although the first succeeded; {_opt_brief(c)}", _opt_sig(c, "second-call", raises=True), c)
+            return
+        _same_raw(P, c, base, rep, "the same analysis run a second time (same analyzer / same input array) gives a different result", "second-call")
+        if not _opt_untouched(c, data, x1, x2):
+            viol(P, f"the second call changed the caller's input array; {_opt_brief(c)}", _opt_sig(c, "input-untouched"), c)
+            return
+        P.hit("opt.second-call")
+        if an is not None and c["entry"] == "analyzer" and not full(P):
+            jm = nb // 2
+            P.cases += 1
+            try:
+                rs = an.compute_single_bin(float(base.f[jm]), L=int(base.L[jm]))
+            except Exception as ex:  # noqa
+                viol(P, f"compute_single_bin(f[{jm}], L=L[{jm}]) on the analyzer that just ran compute() raised {ex!r}; {_opt_brief(c)}",
+                     _opt_sig(c, "second-call", raises=True), c)
+                return
+            if not (_window_checks(P, c, rs, rw, fs, sums) and _ref_checks(P, c, rs, x1, x2, rw, fs, [0], sums)):
+                return
+            P.hit("opt.single-after-compute")
+    if full(P):
+        return
+    tx, ty, txy = _budgets(c, base, x1, x2, order, rw=rw)
+    m = 2.5                                      # both runs carry their own rounding error (+ the rounding of c*x)
+    T = _derived_tols(base, m * tx, m * (ty if x2 is not None else tx), m * (txy if x2 is not None else tx), 1e-9)
+    enbw = np.asarray(base.ENBW)
+    # ---- the other backend under otherwise identical options: same plan and window sums (backend-independent code), statistics within the
+    #      kernels' rounding budgets (each backend is within bin_tol of the exact value, so two of them differ by at most 2 * bin_tol < m * bin_tol)
+    if "other" in steps:
+        P.cases += 1
+        sig = _opt_sig(c, "backend-agreement")
+        what = f"backend={other_be!r} against backend={c.get('backend')!r}; {_opt_brief(c)}"
+        try:
+            ro = _opt_run(c, _opt_input(c, x1, x2), fs, backend=other_be)[0]
+        except Exception as ex:  # noqa
+            viol(P, f"{what}: raised {ex!r} although the analysis with backend={c.get('backend')!r} succeeded", dict(sig, raises=True), c)
+            ro = None
+        if ro is not None:
+            if not _same_plan(base, ro) or not all(np.array_equal(getattr(base, k_), getattr(ro, k_)) for k_ in ("f", "S12", "S2", "ENBW")):
+                viol(P, f"{what}: the plan (f, L, K, D), the window sums or ENBW depend on the backend", dict(sig, field="plan"), c)
+            else:
+                for nm, ob, ex_, tl, mask in _pair_tests(base, ro, 1.0, 1.0, T, tx, enbw, x2 is None, same_path=False):
+                    _cmp_arrays(P, c, sig, nm, ob, ex_, tl, False, what, mask=mask)
+                P.hit("opt.other-backend")
+    if full(P):
+        return
+    # ---- the scaling law for one pair of factors
+    if "scale" in steps:
+        cx, cy = float(c["pair"][0]), (float(c["pair"][1]) if x2 is not None else 1.0)
+        if x2 is None and cx == 1.0:
+            cx = float(c["pair"][1])
+        P.cases += 1
+        exact = all(math.frexp(v)[0] == 0.5 for v in (cx, cy))
+        chan = "xy" if (cx != 1.0 and cy != 1.0) else ("x" if cx != 1.0 else "y")
+        sig = _opt_sig(c, "scale-channel", channel=chan, exact=exact)
+        what = f"channels multiplied by (cx, cy) = ({cx!r}, {cy!r}); {_opt_brief(c)}"
+        try:
+            r = _opt_run(c, _opt_input(c, cx * x1, None if x2 is None else cy * x2), fs)[0]
+        except Exception as ex:  # noqa
+            viol(P, f"{what}: analysis raised {ex!r} although the unscaled one succeeded", dict(sig, raises=True), c, factor=[cx, cy])
+            r = None
+        if r is not None:
+            if not _same_plan(base, r) or not np.array_equal(base.f, r.f) or not np.array_equal(base.ENBW, r.ENBW):
+                viol(P, f"{what}: the plan (f, L, K, D) or ENBW changed with the data scale", dict(sig, field="plan"), c, factor=[cx, cy])
+            else:
+                for nm, ob, ex_, tl, mask in _pair_tests(base, r, cx, cy, T, tx, enbw, x2 is None):
+                    if ob is None or ex_ is None:
+                        viol(P, f"{what}: attribute {nm} is None", dict(sig, field=nm), c, factor=[cx, cy])
+                        continue
+                    _cmp_arrays(P, c, sig, nm, ob, ex_, tl, exact, what, mask=mask, factor=[cx, cy])
+                P.hit("opt.scale." + ("exact" if exact else "generic"))
+    if full(P):
+        return
+    # ---- relabelling the sampling rate
+    if "fs" in steps:
+        a = float(c["fsfac"])
+        P.cases += 1
+        exact = math.frexp(a)[0] == 0.5
+        sig = _opt_sig(c, "scale-fs", exact=exact)
+        what = f"sampling rate relabelled fs -> {a!r}*fs; {_opt_brief(c)}"
+        try:
+            r = _opt_run(c, _opt_input(c, x1, x2), fs, a=a)[0]
+        except Exception:  # noqa
+            r = None
+        if r is None or not _same_plan(base, r):
+            # a rounding decision of the scheduler / of round(fs/fres) flipped: unstable, not a failure (the rate of such flips for powers of
+            # two is watched by the fs stream)
+            P.unstable += 1
+            P.hit("opt.fs-plan-flipped")
+        else:
+            T4 = _derived_tols(base, 4.0 * tx, 4.0 * (ty if x2 is not None else tx), 4.0 * (txy if x2 is not None else tx), 1e-9)
+            for nm, ob, ex_, tl, mask in _fs_tests(base, r, a, T4, x2 is None):
+                _cmp_arrays(P, c, sig, nm, ob, ex_, tl, exact, what, mask=mask, factor=a)
+            P.hit("opt.fs." + ("exact" if exact else "generic"))
+    P.sample({"op": "options", **{k_: c[k_] for k_ in ("entry", "backend", "order", "cross", "win", "olap", "layout", "N", "fs")},
+              "sched": c.get("sched"), "L": c.get("L"), "bins": nb}, cap=3)
+
+
+# ================================================================ (6) size thresholds
+# "for any segment length", "for all records": code that works in blocks / chunks / buffers of c items (the NumPy kernels reduce a bin in chunks
+# of 32768 / 16384 / 8192 segments; the CUDA heuristic switches at 1000 segments; a cache may hold a bounded number of windows) can be right
+# below c and wrong beyond.  The constants are read from the CURRENT source (C.mined_sizes) and probed as a segment length, as a number of
+# segments of one bin and as a record length; independent of what the miner sees, sizes well beyond the quick generator are run every time:
+# single-bin calibration at L = 70 001 and L = 1 100 003, bins with 70 001 segments in every NumPy branch, plans with thousands of bins, records
+# of 70 001 (and 1 100 003) samples — with the reference evaluated at positions spread over the whole result including its last bin.
+SIZE_FILES = ["speckit/core.py", "speckit/analysis.py"]
+CAL_ALWAYS = [70_001, 1_100_003]
+CAL_MORE = [2 ** 16 + 1, 2 ** 17 + 3, 2 ** 16, 300_007, 2 ** 16 - 1, 2 ** 18 + 1, 2 ** 20 + 1, 2_100_001]
+K_ALWAYS = 70_001
+BE4 = [None, "numpy", "numba", "auto"]
+BE3 = ["numba", "numpy", "auto"]
+
+
+def mined_thresholds() -> List[int]:
+    try:
+        return [int(v) for v in C.mined_sizes(SIZE_FILES, lo=512, hi=2_200_000)]
+    except Exception:  # noqa  (an unreadable source is the translator's business; the always-sizes still run)
+        return []
+
+
+def calib_at(rng: np.random.Generator, L: int, K: int, order: int, backend, cross: bool) -> Dict[str, Any]:
+    """a calibration case (check_calib) with a prescribed segment length and K = 1 (N = L) or K = 2 (olap 0.5, N = L + L//3) segments"""
+    psll = float(rng.choice([60.0, 100.0, 200.0, float(rng.uniform(60, 200))]))
+    hw = hw_bins(psll)
+    L = max(int(L), int(math.ceil(4 * (hw + 1.5))) + 1)
+    m0 = float(rng.uniform(hw + 1.0, L / 2 - hw - 1.0))
+    fs = float(rng.choice([1.0, 1000.0, 2.0]))
+    return {"kind": "calib", "A": float(10 ** rng.uniform(-3, 3)), "phi": float(rng.uniform(0, 2 * np.pi)), "L": L, "N": L if K == 1 else L + L // 3,
+            "fs": fs, "f0": m0 * fs / L, "psll": psll, "order": int(order), "olap": None if K == 1 else 0.5, "via": str(rng.choice(["func", "method"])),
+            "cross": bool(cross), "B": float(10 ** rng.uniform(-3, 3)), "phi2": float(rng.uniform(0, 2 * np.pi)),
+            "win": str(rng.choice(["kaiser", "np_kaiser"])), "backend": backend}
+
+
+def opt_K_at(rng: np.random.Generator, K: int, order: int, backend, cross: bool, steps: List[str]) -> Dict[str, Any]:
+    """one bin with exactly K segments (single-bin entry points: olap 0 and N = K*L, or olap 0.5, even L and N = L + (K-1)*L/2), on a record
+    whose level changes along the record"""
+    half = bool(rng.random() < 0.5)
+    L = int(rng.choice([4, 6, 8])) if half else int(rng.integers(4, 8))
+    N = L + (K - 1) * (L // 2) if half else K * L
+    fs = float(rng.choice([1.0, 2.0, 1000.0]))
+    wn = str(rng.choice(["hann", "kaiser", "ramp"]))
+    return {"kind": "opt", "i": -1, "dseed": int(rng.integers(0, 2 ** 31)), "fs": fs, "cross": bool(cross), "order": int(order), "backend": backend,
+            "entry": str(rng.choice(["single-func", "single-method"])), "win": wn, "psll": float(rng.uniform(60, 120)) if wn == "kaiser" else None,
+            "layout": "2xN" if cross else "1d", "rec": ["ramptone", "ramptone"], "L": L, "f0": float(fs * rng.uniform(0.1, 0.4)), "frac": False,
+            "N": int(N), "olap": 0.5 if half else 0.0, "olap_form": "float" if half else "zero", "pair": [float(2.0 ** int(rng.integers(-9, 10))), 4.0],
+            "fsfac": 2.0, "steps": list(steps), "expect_K": int(K)}
+
+
+def opt_plan_at(rng: np.random.Generator, N: int, Jdes: int, order: int, backend, cross: bool, sched: str, steps: List[str], nref: int) -> Dict[str, Any]:
+    fs = float(rng.choice([1.0, 2.0, 1000.0]))
+    wn = str(rng.choice(["kaiser", "hann", "default"]))
+    return {"kind": "opt", "i": -1, "dseed": int(rng.integers(0, 2 ** 31)), "fs": fs, "cross": bool(cross), "order": int(order), "backend": backend,
+            "entry": str(rng.choice(["analyzer", "compute_spectrum"])), "win": wn, "psll": float(rng.choice([200.0, 100.0])) if wn == "kaiser" else None,
+            "layout": "Nx2" if cross else "1d", "rec": [str(rng.choice(["drift", "offset", "red"])), "tone"], "f0": 0.1 * fs,
+            "Jdes": int(Jdes), "Kdes": int(rng.choice([2, 5, 10])), "bmin": 1.0, "Lmin": 1, "sched": sched, "N": int(N),
+            "olap": str(rng.choice(["omit", "default"])) if rng.random() < 0.5 else 0.5, "olap_form": "plan", "pair": [8.0, 0.25], "fsfac": 2.0,
+            "steps": list(steps), "nref": int(nref), "work_cap": 3e8}
+
+
+def size_cases(rng: np.random.Generator, s: int, big: bool):
+    """yields (cost class, case): first the sizes run on every run, then the probes around the mined constants (rotated by the seed; all of
+    them when `big`), then more large sizes"""
+    o4 = [-1, 0, 1, 2]
+    # --- always: calibration at L = 70 001 (K = 1 and K = 2) and L = 1 100 003
+    yield "always", calib_at(rng, CAL_ALWAYS[0], 1, o4[s % 4], BE4[(s + 1) % 4], False)
+    yield "always", calib_at(rng, CAL_ALWAYS[0], 2, o4[(s + 2) % 4], BE4[(s + 2) % 4], True)
+    yield "always", calib_at(rng, CAL_ALWAYS[1], 1 + (s // 4) % 2, o4[(s + 1) % 4], ["numpy", "numba"][s % 2], False)
+    # --- always: a bin with 70 001 segments in each of the six NumPy kernels (window only / mean / polynomial x auto / cross; the polynomial
+    #     order alternates with the seed; all eight (order, auto/cross) pairs when `big`), against the definition and against Numba
+    for t in range(8):
+        if big or o4[t % 4] != (1 if s % 2 else 2):
+            yield "always", opt_K_at(rng, K_ALWAYS + 2 * t, o4[t % 4], "numpy", t >= 4, ["ref", "other"] if not big else ["ref", "other", "repeat", "scale"])
+    # --- always: a plan with about a thousand bins (every bin's window sums; the estimator at bins spread over the whole plan), and a record
+    #     of 70 001 samples
+    sch = _an.SCHEDS[s % 4]
+    yield "always", opt_plan_at(rng, int(rng.integers(12_000, 20_000)) if big else int(rng.integers(5_000, 8_000)), 2003 + 500 * (s % 3), o4[(s + 3) % 4],
+                                ["numba", "numpy"][(s // 2) % 2], bool(s % 2), sch, ["ref"] if not big else ["ref", "other", "scale", "repeat"], 6)
+    sch3 = ["ltf", "lpsd", "vectorized_ltf"]                 # (new_ltf answers long records with tens of thousands of bins)
+    yield "always", opt_plan_at(rng, 70_001, 24 if big else 12, o4[s % 4], ["numpy", "numba"][s % 2], bool((s // 2) % 2), sch3[(s + 1) % 3],
+                                ["ref", "other"] if not big else ["ref", "other", "scale"], 5)
+    # --- probes around the constants of the current source
+    probes: List[Tuple[str, int]] = []
+    for cst in sorted(mined_thresholds(), reverse=True):
+        for d in (0, 1, -1, 17, cst + 3):
+            for what in ("K", "L", "N"):
+                probes.append((what, cst + d))
+    rot = (7 * s) % max(len(probes), 1)
+    for t, (what, v) in enumerate(probes[rot:] + probes[:rot]):
+        order, be, cross = o4[(t + s) % 4], ["numpy", "numba", "numpy", "auto"][(t // 4 + s) % 4], bool((t // 2) % 2)
+        if what == "K":
+            yield "probe", opt_K_at(rng, v, order, "numpy", cross, ["ref", "other"])
+        elif what == "L":
+            yield "probe", calib_at(rng, v, 1 + t % 2, order, be, cross)
+        else:
+            yield "probe", opt_plan_at(rng, v, 16, order, be, cross, _an.SCHEDS[t % 4], ["ref", "other"], 4)
+    # --- more large sizes (segments / records beyond 10^6 samples only when `big`: several seconds each)
+    for t, L in enumerate(CAL_MORE):
+        if big or L < 1_000_000:
+            yield "more", calib_at(rng, L, 1 + t % 2, o4[(t + s) % 4], BE4[(t + s) % 4], t % 3 == 0)
+    if big:
+        yield "more", opt_plan_at(rng, 1_100_003, 8, o4[s % 4], ["numba", "numpy"][s % 2], False, sch3[s % 3], ["ref", "other"], 3)
 
 
 # ================================================================ edge stream
@@ -828,10 +1574,51 @@ CORPUS = [
      "pairs": [[1e-6, 1.0], [2e-5, 2e-5], [1e3, 1e-9], [1e12, 1e12], [1e-12, 1e-12], [2.0 ** -25, 1.0]]},
 ]
 
-CHECKS = {"calib": check_calib, "enbw": check_enbw, "scale": check_scale, "wscale": check_wscale, "fs": check_fs, "fs_single": check_fs_single}
+CHECKS = {"calib": check_calib, "enbw": check_enbw, "scale": check_scale, "wscale": check_wscale, "fs": check_fs, "fs_single": check_fs_single,
+          "opt": check_opt}
+
+
+def _blas_threads(n):
+    """RUN-TIME ONLY (no predicate depends on it): set the thread count of every OpenBLAS loaded in this process (NumPy's, SciPy's), return the
+    previous settings (pass them back to restore).  The NumPy backend multiplies small (K x L) matrices; on a machine shared with other checks
+    OpenBLAS's spinning worker threads make each such product 100..1000 times slower (measured: 0.1 ms alone, 50..300 ms at load 80 on 16
+    cores), which would eat the time shares of every stream that now runs the NumPy backend.  One thread is also what the products' sizes call
+    for.  Any failure leaves the libraries as they are."""
+    prev = []
+    try:
+        import ctypes
+        paths = []
+        with open("/proc/self/maps") as fh:
+            for line in fh:
+                q = line.split()[-1]
+                if "openblas" in os.path.basename(q).lower() and q not in paths:
+                    paths.append(q)
+        want = dict(n) if isinstance(n, list) else None
+        for path in paths:
+            if want is not None and path not in want:
+                continue
+            lib = ctypes.CDLL(path)
+            done = False
+            for suf in ("64_", ""):
+                for pre in ("scipy_openblas", "openblas"):
+                    if not done and hasattr(lib, f"{pre}_set_num_threads{suf}") and hasattr(lib, f"{pre}_get_num_threads{suf}"):
+                        prev.append((path, int(getattr(lib, f"{pre}_get_num_threads{suf}")())))
+                        getattr(lib, f"{pre}_set_num_threads{suf}")(int(want[path] if want is not None else n))
+                        done = True
+    except Exception:  # noqa
+        pass
+    return prev
 
 
 def oracle(ctx, intensive: bool = False, hints=()) -> C.Part:
+    prev = _blas_threads(1)
+    try:
+        return _oracle(ctx, intensive, hints)
+    finally:
+        _blas_threads(prev)
+
+
+def _oracle(ctx, intensive: bool = False, hints=()) -> C.Part:
     P = C.Part()
     STATS.clear()
     mult = 4 if intensive else 1
@@ -844,7 +1631,40 @@ def oracle(ctx, intensive: bool = False, hints=()) -> C.Part:
     t_all = max(30.0, min(ctx.time_left() - 20.0, (600.0 if ctx.thorough else 70.0) * mult))
     import time
     share = {"calib": 0.3, "enbw": 0.2, "scale": 0.3, "wscale": 0.1, "fs": 0.15, "fs_single": 0.05}
+    seed = int(getattr(ctx, "seed", 0))
+    big = bool(ctx.thorough or intensive)
+    # ---- option combinations and entry points: every (backend, order, auto/cross) branch on every run (the first 16 cases are never cut)
+    n_opt = ctx.scale(96, 960) * mult
+    t0, cap = time.time(), (150.0 if ctx.thorough else 13.0) * mult
+    for i in range(n_opt):
+        if full(P):
+            return P
+        if i >= 16 and (time.time() - t0 > cap or ctx.time_left() < 60):
+            P.notes.append(f"opt: time share reached after {i} of {n_opt} cases")
+            break
+        c = gen_opt(np.random.default_rng(int(ctx.rng.integers(0, 2 ** 62))), i, seed, ctx.thorough)
+        t1 = time.time()
+        check_opt(P, c)
+        if time.time() - t1 > 4.0:
+            P.notes.append(f"slow case ({time.time() - t1:.1f} s): {_opt_brief(c)}")
+    spent = {"opt": time.time() - t0}
+    # ---- size thresholds: the sizes of every run first, then probes around the constants of the current source, then more large sizes
+    t0, cap = time.time(), (150.0 if ctx.thorough else 9.0) * mult
+    n_size = 0
+    for cls, c in size_cases(np.random.default_rng(int(ctx.rng.integers(0, 2 ** 62))), seed, big):
+        if full(P):
+            return P
+        if cls != "always" and (time.time() - t0 > cap or ctx.time_left() < 60):
+            P.notes.append(f"size: time share reached after {n_size} cases")
+            break
+        t1 = time.time()
+        CHECKS[c["kind"]](P, c)
+        if time.time() - t1 > 8.0:
+            P.notes.append(f"slow case ({time.time() - t1:.1f} s): {cls} {c['kind']} " + (_opt_brief(c) if c["kind"] == "opt" else f"L={c['L']} N={c['N']} order={c['order']} backend={c.get('backend')}"))
+        n_size += 1
+    spent["size"] = time.time() - t0
     for kind, n in plan:
+        spent[kind] = -time.time()
         t0 = time.time()
         for i in range(n):
             if full(P):
@@ -855,6 +1675,7 @@ def oracle(ctx, intensive: bool = False, hints=()) -> C.Part:
             sub = np.random.default_rng(int(ctx.rng.integers(0, 2 ** 62)))
             if kind == "calib":
                 c = gen_calib(sub, ctx.thorough, order=[-1, 0, -1, 0, 1, 2][i % 6])
+                c["backend"] = BE4[(i + i // 6) % 4]          # every (order, backend) pair within 24 cases; auto / cross drawn by gen_calib
             elif kind == "enbw":
                 c = gen_enbw(sub, ctx.thorough)
             elif kind == "wscale":
@@ -865,12 +1686,16 @@ def oracle(ctx, intensive: bool = False, hints=()) -> C.Part:
                 c["cross"] = i % 7 != 6
             elif kind == "fs_single":
                 c = gen_calib(sub, ctx.thorough, order=[-1, 0][i % 2])
-                c.update(kind="fs_single", cross=False)
+                c.update(kind="fs_single", cross=False, backend=BE4[(i + i // 2) % 4])
             else:
                 c = gen_scale(sub, ctx.thorough, kind)
                 if kind == "scale" and i % 5 == 4:
                     c["cross"] = False
+            if "opts" in c:                                    # the analysis-level streams run on every backend (orders drawn by _an.options)
+                c["opts"]["backend"] = BE3[i % 3]
             CHECKS[kind](P, c)
+        spent[kind] += time.time()
+    P.notes.append("seconds per stream: " + ", ".join(f"{k} {v:.1f}" for k, v in spent.items()))
     tr, fl = int(STATS.pop("fs.pow2-trials", 0)), int(STATS.pop("fs.pow2-flips", 0))
     ex = STATS.pop("fs.flip-example", None)
     P.notes.append(f"fs -> 2*fs / 0.5*fs relabellings: {tr}, of which the plan itself changed (rounding flip in the scheduler): {fl}")
